@@ -3,6 +3,7 @@ import Ztr.Model.Filter
 import Ztr.Model.Layers
 import Ztr.Model.Shuffle
 import Ztr.Model.Digraph
+import Ztr.Model.Channel
 /-!
 Line protocol between the Python harness and the executable model: one JSON object per line in,
 one JSON object per line out.  `op` selects the model component.  Unknown or malformed requests are
@@ -86,6 +87,25 @@ def opSccs (j : Json) : Except String Json := do
   return Json.mkObj [("out", jNatss r.1.out.reverse), ("halted", Json.bool r.2),
     ("stack_empty", Json.bool r.1.stack.isEmpty)]
 
+def jInt (i : Int) : Json := Json.num (JsonNumber.fromInt i)
+
+/-- `channel_parse`: what the parent records for a child's complete stderr (or a spawn failure) -/
+def opChannelParse (j : Json) : Except String Json := do
+  let bs ← J.nats! j "stderr"
+  let sf ← J.bool! j "spawn_failed"
+  match Ztr.Channel.parentOutcome sf bs with
+  | .ok ran f e => return Json.mkObj [("kind", "ok"), ("ran", jInt ran), ("fails", jNatss f), ("errs", jNatss e)]
+  | .commError => return Json.mkObj [("kind", "commError")]
+  | .crash => return Json.mkObj [("kind", "crash")]
+
+/-- `child_report`: the bytes SubProcess.report writes -/
+def opChildReport (j : Json) : Except String Json := do
+  let ran ← J.nat! j "ran"
+  let f ← J.natss! j "fails"
+  let e ← J.natss! j "errs"
+  return Json.mkObj [("bytes", jNats (Ztr.Channel.childReport ran f e)),
+    ("pyws", jNats Ztr.Channel.pyWhitespace)]
+
 def dispatch (j : Json) : Except String Json := do
   let op ← J.str! j "op"
   match op with
@@ -93,6 +113,8 @@ def dispatch (j : Json) : Except String Json := do
   | "layers" => opLayers j
   | "shuffle" => opShuffle j
   | "sccs" => opSccs j
+  | "channel_parse" => opChannelParse j
+  | "child_report" => opChildReport j
   | _ => throw s!"unknown op {op}"
 
 partial def loop (h : IO.FS.Stream) (out : IO.FS.Stream) : IO Unit := do
